@@ -116,7 +116,7 @@ def tcp_scenarios(ctx, n):
         g = i % 6
         b = T.port_base(g)
         up, px = b, b + 1
-        closer = ["client_fin", "client_rst", "upstream_fin", "upstream_rst", "disable", "delete"][i % 6]
+        closer = ["client_fin", "client_rst", "upstream_fin", "upstream_rst", "disable", "delete", "replaced_by_disabled_elsewhere"][i % 7]
         inflight = rng.choice(["nothing", "c2s", "s2c", "both"])
         k = rng.range(2, 5)
         ops = [{"op": "upstream", "id": "u", "port": up, "mode": "manual"},
@@ -137,6 +137,10 @@ def tcp_scenarios(ctx, n):
                 ops.append({"op": "send", "id": s, "n": 3000})
         if closer in ("disable", "delete"):
             ops.append(T.api("POST", "/proxies/p", {"enabled": False}) if closer == "disable" else T.api("DELETE", "/proxies/p"))
+        if closer == "replaced_by_disabled_elsewhere":
+            # populate replaces the proxy by an entry of the same name that listens elsewhere and is not to be started: the old
+            # incarnation is gone as far as the API shows, and so must be everything it held
+            ops.append(T.api("POST", "/populate", [{"name": "p", "listen": "127.0.0.1:%d" % (b + 2), "upstream": "127.0.0.1:%d" % up, "enabled": False}]))
         for j in range(k):
             c, s = "c%d" % j, "s%d" % j
             if closer.startswith("client"):
@@ -152,6 +156,8 @@ def tcp_scenarios(ctx, n):
                 ops.append({"op": "recv", "id": s, "up": c, "n": 100000, "ms": 1500})
                 ops.append({"op": "close", "id": c, "how": "fin"})
                 ops.append({"op": "close", "id": s, "how": "fin"})
+        if closer == "replaced_by_disabled_elsewhere":
+            ops += [{"op": "dial", "id": "z", "addr": "127.0.0.1:%d" % px}, {"op": "close", "id": "z", "how": "fin"}]
         ops += [{"op": "sleep", "ms": 300}, {"op": "census"}]
         cases.append({"ops": ops, "group": g, "closer": closer, "inflight": inflight, "k": k})
     # stop / delete while the accept loop is still dialling a slow upstream: nothing may be registered afterwards
@@ -211,6 +217,14 @@ def tcp_scenarios(ctx, n):
             leaks.append("%d goroutines" % (after["goroutines"] - before["goroutines"]))
         if after["fds"] > before["fds"] + c.get("held_by_harness", 0) and not c.get("slow"):   # (the slow-upstream stub of the harness keeps its own accepted sockets)
             leaks.append("%d file descriptors" % (after["fds"] - before["fds"] - c.get("held_by_harness", 0)))
+        if c["closer"] == "replaced_by_disabled_elsewhere":
+            # the old incarnation had an accept loop and a listener when the first census was taken: both must be gone now
+            dz = [x for o, x in zip(c["ops"], r) if o.get("op") == "dial" and o.get("id") == "z"]
+            if dz and dz[0].get("ok"):
+                leaks.append("the replaced proxy's listener still accepts connections")
+            if after["goroutines"] >= before["goroutines"] and "goroutines" not in " ".join(leaks):
+                leaks.append("the accept loop's goroutines (%d goroutines before with the proxy up, %d after it was replaced by a disabled one)"
+                             % (before["goroutines"], after["goroutines"]))
         for key in after:
             if key.startswith(("links:", "conns:")) and after[key] != 0:
                 leaks.append("%s=%d" % (key, after[key]))
@@ -220,7 +234,7 @@ def tcp_scenarios(ctx, n):
                 leaks.append("the client connection accepted during the stop is still open (%s)" % rc.get("end"))
         if leaks:
             # unread data pending towards a peer that went away is the known class F7
-            kc = "downstream-gone-with-send-pending" if c["inflight"] != "nothing" and not any(l.startswith(("links", "conns", "file")) for l in leaks) else None
+            kc = "downstream-gone-with-send-pending" if c["inflight"] != "nothing" and all(l.endswith(" goroutines") for l in leaks) else None
             fails.append(("teardown-leak", "after %d connections ended by %s with %s in flight: %s left behind" % (c["k"], c["closer"], c["inflight"], ", ".join(leaks)), rp, kc))
     return fails, {"tcp_runs": len(cases), "tcp_failures": len(fails),
                    "tcp_sample": {"closer": cases[0]["closer"], "inflight": cases[0]["inflight"],
